@@ -145,6 +145,13 @@ def run_recv(c, P):
     if auto_pong == 'sym':
         auto_pong = bool(c.boolean('auto_pong'))
     app = None
+    if P.get('app_rejected_close_at_ready'):
+        def app(idx, ev, ws_, gen):
+            if ev.name == 'ready':
+                try:
+                    ws_.close(1000, b'x' * 200)        # not sendable: must raise ValueError and change nothing
+                except ValueError:
+                    pass
     if P.get('app_close_at_ready'):
         def app(idx, ev, ws_, gen):
             if ev.name == 'ready':
